@@ -23,6 +23,8 @@ for d in sorted((here / "seeded").iterdir()):
     subprocess.run(["git", "-C", "/repo", "worktree", "remove", "--force", str(wt)], capture_output=True)
     subprocess.run(["git", "-C", "/repo", "worktree", "add", "-q", str(wt), "HEAD"], check=True)
     res = {"id": d.name, "property": prop}
+    gen = here / "lean" / "NunavutVerif" / "Gen"
+    saved = {f: f.read_bytes() for f in gen.glob("*.lean")}   # translators will rewrite these from the changed tree
     try:
         p = subprocess.run(["git", "-C", str(wt), "apply", str(d / "patch.diff")], capture_output=True, text=True)
         res["applies"] = p.returncode == 0
@@ -50,6 +52,12 @@ for d in sorted((here / "seeded").iterdir()):
             res["with_failing_input"] = any("no-failing-input-found" not in l for l in res["violation_lines"])
             shutil.rmtree(f"/tmp/seed_ev_{d.name}", ignore_errors=True)
     finally:
+        for f in list(gen.glob("*.lean")):
+            if f not in saved:
+                f.unlink()
+        for f, b in saved.items():
+            if not f.exists() or f.read_bytes() != b:
+                f.write_bytes(b)
         subprocess.run(["git", "-C", "/repo", "worktree", "remove", "--force", str(wt)], capture_output=True)
         shutil.rmtree(wt, ignore_errors=True)
     (d / "result.json").write_text(json.dumps(res, indent=1) + "\n")
